@@ -642,6 +642,11 @@ func registerFS(ex *Executor) {
 		i := ex.fsFind(st, fs, ex.parseName(strOf(args[1])))
 		return smt.BoolC(i >= 0 && fs.Entries[i].Ino == fv.Ino && !fv.Closed), cNext
 	}
+	// symbolically the JSON encoder's failure is a function of the value's shape; natively this returns an unencodable
+	// value when the replayed run has the encoder fail
+	I["@verifMaybeUnencodable"] = func(ex *Executor, st *State, cc *CallCtx, args []Val) (Val, ctl) {
+		return IfaceV{}, cNext
+	}
 	I["@verifTempDir"] = func(ex *Executor, st *State, cc *CallCtx, args []Val) (Val, ctl) {
 		return smt.StrC("/logs"), cNext
 	}
